@@ -346,6 +346,14 @@ func (c *Ctx) c10LoadErrors(readIndex *ssa.Function) {
 // `err == X` / os.IsNotExist(err) / errors.Is(err, X) test are exempt. It returns the number
 // of calls examined.
 func (c *Ctx) errNotSwallowed(rule string, fns []*ssa.Function, pick func(name string) bool, allowExcuse bool, consequence string) int {
+	return c.errNotSwallowedCalls(rule, fns, func(call *ssa.Call) (string, bool) {
+		name := eng.CalleeName(call.Common())
+		return name, pick(name)
+	}, allowExcuse, consequence)
+}
+
+// errNotSwallowedCalls is errNotSwallowed with the selection made on the call itself.
+func (c *Ctx) errNotSwallowedCalls(rule string, fns []*ssa.Function, pickCall func(*ssa.Call) (string, bool), allowExcuse bool, consequence string) int {
 	r, p := c.R, c.P
 	n := 0
 	ord := map[string]int{}
@@ -356,8 +364,8 @@ func (c *Ctx) errNotSwallowed(rule string, fns []*ssa.Function, pick func(name s
 			if !ok {
 				return
 			}
-			name := eng.CalleeName(call.Common())
-			if !pick(name) {
+			name, sel := pickCall(call)
+			if !sel {
 				return
 			}
 			var errV ssa.Value = call
@@ -558,7 +566,22 @@ func (c *Ctx) c10NoMemory(pm *pairModel, storeT, mboxT *types.Named, readIndex *
 		eng.EachInstr(fn, func(in ssa.Instruction) {
 			if fa, ok := in.(*ssa.FieldAddr); ok && eng.SameField(eng.FieldOfAddr(fa), pm.fileMsgs) {
 				if _, fresh := fa.X.(*ssa.Alloc); !fresh {
-					accesses[fn] = append(accesses[fn], in)
+					// an access inside a function literal is attributed to the instruction
+					// of the enclosing function that creates the literal
+					owner, at := fn, ssa.Instruction(in)
+					for owner.Parent() != nil {
+						var mk ssa.Instruction
+						eng.EachInstr(owner.Parent(), func(x ssa.Instruction) {
+							if mc, ok := x.(*ssa.MakeClosure); ok && mc.Fn == ssa.Value(owner) {
+								mk = x
+							}
+						})
+						if mk == nil {
+							break
+						}
+						owner, at = owner.Parent(), mk
+					}
+					accesses[owner] = append(accesses[owner], at)
 				}
 			}
 		})
